@@ -7,8 +7,8 @@
  *              detected as MSF;
  * names in block lines are built from letters, digits and _ . | - (C06).  Plus the C05 obligations of the query (no access
  * outside the line buffers for any content).
- * Symbolic: KV_K bytes after the '>' of every FASTA header (any byte except NUL / newline), the residue lines, the
- * names of the block lines.                                                                                             */
+ * Symbolic: KV_K bytes after the '>' of every FASTA header (any byte except NUL / newline), the residue lines (KV_RW
+ * letters), the row names (KV_NW characters, the same in the Name: line and the block lines).                                                                                            */
 #include <stdio.h>
 #include "kv.h"
 #include "stubs_msg.h"
@@ -31,8 +31,15 @@ int tl_stopwatch_Display(ESL_STOPWATCH* w){ (void)w; return 0; }
 #ifndef KV_K
 #define KV_K 9
 #endif
+#ifndef KV_NW
+#define KV_NW 2          /* name width in the block lines / Name: line */
+#endif
+#ifndef KV_RW
+#define KV_RW 4          /* residues in a FASTA sequence line */
+#endif
 #define KV_MAXL 12
-#define KV_LINEW 48
+#define KV_LINEW 64
+static char kv_names[2][KV_NW + 1];
 static char text[KV_MAXL][KV_LINEW + 1];
 static int tlen[KV_MAXL];
 static int nlines;
@@ -74,10 +81,10 @@ static void put_residues(int n)
         for(k = 0; k < n; k++){ text[nlines][k] = res_char(); }
         text[nlines][n] = 0; tlen[nlines] = n; nlines++;
 }
-static void put_block_line(void)
+static void put_block_line(int row)
 {
-        int k = 0;
-        text[nlines][k++] = name_char(); text[nlines][k++] = name_char();
+        int k = 0, i;
+        for(i = 0; i < KV_NW; i++){ text[nlines][k++] = kv_names[row][i]; }
         text[nlines][k++] = ' '; text[nlines][k++] = ' ';
         text[nlines][k++] = res_char(); text[nlines][k++] = res_char();
         text[nlines][k] = 0; tlen[nlines] = k; nlines++;
@@ -88,22 +95,35 @@ void h_c04_sniff(void)
         struct in_buffer b;
         int type = -77, rc, i;
         nlines = 0;
+        for(i = 0; i < 2; i++){
+                int j;
+                for(j = 0; j < KV_NW; j++){ kv_names[i][j] = name_char(); }
+                kv_names[i][KV_NW] = 0;
+        }
 #if KV_TEXT == 0
-        put_header(); put_residues(4); put_line(""); put_header(); put_residues(3);
+        put_header(); put_residues(KV_RW); put_line(""); put_header(); put_residues(3);
 #elif KV_TEXT == 1
         put_line("Kalign (3.4.1) multiple sequence alignment");
         put_line(""); put_line("");
-        put_block_line(); put_block_line(); put_line("");
+        put_block_line(0); put_block_line(1); put_line("");
 #else
         put_line("!!AA_MULTIPLE_ALIGNMENT 1.0");
         put_line("");
         put_line(" stdout  MSF: 2  Type: P  DATE  Check: 12  ..");
         put_line("");
-        put_line(" Name: ab  Len:      2  Check:   12  Weight: 1.00");
+        for(i = 0; i < 2; i++){
+                char l[KV_LINEW + 1] = " Name: ";
+                int k = 7, j;
+                const char* tail = "  Len:      2  Check:   12  Weight: 1.00";
+                for(j = 0; j < KV_NW; j++){ l[k++] = kv_names[i][j]; }
+                for(j = 0; tail[j] != 0; j++){ l[k++] = tail[j]; }
+                l[k] = 0;
+                put_line(l);
+        }
         put_line("");
         put_line("//");
         put_line("");
-        put_block_line(); put_block_line(); put_line("");
+        put_block_line(0); put_block_line(1); put_line("");
 #endif
         for(i = 0; i < nlines; i++){ kv_il[i].line = text[i]; kv_il[i].len = tlen[i]; kv_ilp[i] = &kv_il[i]; }
         b.l = kv_ilp; b.n_lines = nlines; b.alloc_lines = KV_MAXL;
